@@ -83,6 +83,16 @@ fn owners_of(cl: &VCluster, phase: u8) -> Result<Owners, Fail> {
     let mut node = vec![String::new(); 16384];
     let mut proxy = vec![String::new(); 16384];
     let mut mig = vec![None; 16384];
+    // the node that HOLDS the importing twin of a migrating range is the designated destination (the
+    // addresses inside the migration meta are what the proxies are told, not what designates the owner)
+    let mut importing_holder: BTreeMap<(Vec<(usize, usize)>, u64), (String, String)> = BTreeMap::new();
+    for n in &cl.nodes {
+        for sr in &n.slots {
+            if let VTag::Importing(m) = &sr.tag {
+                importing_holder.insert((sr.range_list.clone(), m.epoch), (n.address.clone(), n.proxy_address.clone()));
+            }
+        }
+    }
     for n in &cl.nodes {
         if !n.is_master() {
             continue;
@@ -99,16 +109,18 @@ fn owners_of(cl: &VCluster, phase: u8) -> Result<Owners, Fail> {
                     }
                 }
                 VTag::Migrating(m) => {
+                    let (dst_node, dst_proxy) = importing_holder.get(&(sr.range_list.clone(), m.epoch)).cloned().unwrap_or((m.dst_node_address.clone(), m.dst_proxy_address.clone()));
                     for (a, b) in &sr.range_list {
                         for s in *a..=*b {
                             if phase == 0 {
-                                node[s] = m.src_node_address.clone();
-                                proxy[s] = m.src_proxy_address.clone();
+                                // before the handshake: the node that holds the migrating range
+                                node[s] = n.address.clone();
+                                proxy[s] = n.proxy_address.clone();
                             } else {
-                                node[s] = m.dst_node_address.clone();
-                                proxy[s] = m.dst_proxy_address.clone();
+                                node[s] = dst_node.clone();
+                                proxy[s] = dst_proxy.clone();
                             }
-                            mig[s] = Some((m.src_proxy_address.clone(), m.src_node_address.clone(), m.dst_proxy_address.clone(), m.dst_node_address.clone()));
+                            mig[s] = Some((n.proxy_address.clone(), n.address.clone(), dst_proxy.clone(), dst_node.clone()));
                         }
                     }
                 }
@@ -423,7 +435,7 @@ pub fn check_topology(case: &PhaseCase, obs: &mut Obs) -> Result<(), Fail> {
     r
 }
 
-pub const RULE: &str = "broker states reached by generated operation histories (stable, mid-migration, after failover/replacement, limited migration) are delivered to a world of REAL proxies (one per cluster member, two Redis stand-ins each) through the REAL coordinator sender (SETREPL + SETCLUSTER, plain or compressed); the real migrations are frozen in a generated phase pair by holding PRECHECK / SCAN / FINALSWITCH messages; in half of the cases the metadata is then refreshed 1-2 times while the migration is in flight (admin epoch bump, same content re-sent with a higher epoch through the real sender); from EVERY proxy of the cluster a SET with a unique token is sent for every range boundary +-1 and generated slots, MOVED followed; oracle from the broker's cluster JSON: executed (stand-in logs) on exactly the designated node - source in (PreCheck,PreCheck), destination afterwards -, <=1 redirection for stable and <=3 for migrating slots, no data command on a foreign node; non-trivial = >=2 proxies and (start proxy != owner proxy or slot migrating); distinct = hash of the case";
+pub const RULE: &str = "broker states reached by generated operation histories (stable, mid-migration, after failover/replacement, limited migration) are delivered to a world of REAL proxies (one per cluster member, two Redis stand-ins each) through the REAL coordinator sender (SETREPL + SETCLUSTER, plain or compressed); the real migrations are frozen in a generated phase pair by holding PRECHECK / SCAN / FINALSWITCH messages; in half of the cases the metadata is then refreshed 1-2 times while the migration is in flight (admin epoch bump, same content re-sent with a higher epoch through the real sender); from EVERY proxy of the cluster a SET with a unique token is sent for every range boundary +-1 and generated slots, MOVED followed; oracle from the broker's cluster JSON: executed (stand-in logs) on exactly the designated node - the node HOLDING the migrating range in (PreCheck,PreCheck), the node HOLDING its importing twin afterwards (not the addresses written inside the migration meta) -, <=1 redirection for stable and <=3 for migrating slots, no data command on a foreign node; non-trivial = >=2 proxies and (start proxy != owner proxy or slot migrating); distinct = hash of the case";
 pub const RULE_TOPO: &str = "[phases] the same frozen-phase worlds built from reachable broker states: CLUSTER NODES and CLUSTER SLOTS of EVERY proxy (source, destination, bystander) parsed independently; every slot exactly once in each and at the same address; stable slots at the owner proxy, migrating slots at the source in (PreCheck,PreCheck) and at the destination afterwards on the proxies that run the migration, once at either side on bystanders; non-trivial = the state has a migration";
 
 pub fn run_prop(ctx: &Ctx, findings: &Findings) -> PropReport {
